@@ -707,11 +707,27 @@ func histories(c hx.Config, o *hx.Out, lvs []leaf, wrs []wrapper) error {
 			}
 		}
 	}
-	probe := func(s st, h []string) {
-		applyHistory(h)
+	// parseWith runs one parse of site s under the current global configuration. mode: 0 = no context argument,
+	// 1 = a fresh empty ParseContext, 2 = the caller-owned context `shared` (reused across the parses of one history).
+	// sch: a schema built before the history started (nil: build a fresh one now).
+	parseWith := func(s st, h []string, mode int, shared *core.ParseContext, sch core.ZodSchema, how string) {
 		var err error
 		winner := "n"
-		if p := hx.Safely(func() { _, err = s.w.wrap(s.lf.build(nil, nil)).ParseAny(s.w.in(s.lf.input)) }); p != "" {
+		run := func() {
+			z := sch
+			if z == nil {
+				z = s.w.wrap(s.lf.build(nil, nil))
+			}
+			switch mode {
+			case 1:
+				_, err = z.ParseAny(s.w.in(s.lf.input), &core.ParseContext{})
+			case 2:
+				_, err = z.ParseAny(s.w.in(s.lf.input), shared)
+			default:
+				_, err = z.ParseAny(s.w.in(s.lf.input))
+			}
+		}
+		if p := hx.Safely(run); p != "" {
 			winner = "panic"
 		} else {
 			var ze *gozod.ZodError
@@ -730,9 +746,38 @@ func histories(c hx.Config, o *hx.Out, lvs []leaf, wrs []wrapper) error {
 				}
 			}
 		}
-		o.Emit(fmt.Sprintf("c18 hist %s@%s %s # SetConfig(nil); then the calls in order (R = SetConfig(nil), S<c><l> = SetConfig(&ZodConfig{CustomError: c, LocaleError: l}), - = nil, upper case answers its tag, lower case answers \"\"); then %s with S = %s",
-			s.lf.id, s.w.id, strings.Join(h, ","), s.w.desc, s.lf.repro), winner)
+		o.Emit(fmt.Sprintf("c18 hist %s@%s %s # SetConfig(nil); then the calls in order (R = SetConfig(nil), S<c><l> = SetConfig(&ZodConfig{CustomError: c, LocaleError: l}), - = nil, upper case answers its tag, lower case answers \"\"); then %s with S = %s%s",
+			s.lf.id, s.w.id, strings.Join(h, ","), s.w.desc, s.lf.repro, how), winner)
 		o.Count(fmt.Sprintf("hist:len%d", len(h)))
+	}
+	probe := func(s st, h []string) {
+		applyHistory(h)
+		parseWith(s, h, 0, nil, nil, "")
+	}
+	// interleaved: one schema and one caller-owned ParseContext live through the whole history; after every
+	// SetConfig call the site is parsed again (no context / fresh context / the reused context / the schema built
+	// before the first call) and must answer for the configuration that is current at that moment.
+	interleaved := func(s st, h []string) {
+		core.SetConfig(nil)
+		shared := &core.ParseContext{}
+		old := s.w.wrap(s.lf.build(nil, nil))
+		parseWith(s, []string{"R"}, 2, shared, old, "; parsed with the ParseContext that is reused later")
+		for i, call := range h {
+			if call == "R" {
+				core.SetConfig(nil)
+			} else {
+				core.SetConfig(&core.ZodConfig{CustomError: histMap("CUS-", call[1]), LocaleError: histMap("LOC-", call[2])})
+			}
+			mode := i % 3
+			var sch core.ZodSchema
+			how := [...]string{"; parsed without a context", "; parsed with a fresh empty ParseContext", "; parsed with ONE ParseContext reused since the start of the history"}[mode]
+			if i%2 == 1 {
+				sch = old
+				how += ", schema built before the first call"
+			}
+			parseWith(s, h[:i+1], mode, shared, sch, how+" (a parse after every call of the history)")
+			o.Count("hist:interleaved-parse")
+		}
 	}
 	// exhaustive short histories
 	maxLen := 2
@@ -772,7 +817,11 @@ func histories(c hx.Config, o *hx.Out, lvs []leaf, wrs []wrapper) error {
 				h[j] = hx.Pick(r, histCalls)
 			}
 		}
-		probe(hx.Pick(r, sites), h)
+		if i%2 == 0 {
+			probe(hx.Pick(r, sites), h)
+		} else {
+			interleaved(hx.Pick(r, sites), h)
+		}
 	}
 	return nil
 }
